@@ -200,7 +200,7 @@ class ZorgFileCompiler(ZorgFileListener):
     ) -> None:  # noqa: D102
         words = ctx.getText().split(" ")
         if len(words) == 1:
-            key, value = words[0][1:-1].split("::")
+            key, value = words[0][1:-1].split("::", 1)
         else:
             key = words.pop(0)[1:-2]
             value = " ".join(words)[:-1]
